@@ -357,6 +357,113 @@ def incorporateTranscript (ver : Ver) (par : Par) (ref : Seq) (vs : Variants) (e
         else pure (sh, some c)
       | _, _, _, _ => throw .Location
 
+/-! ### gene/collections.py: AnnotationCollection._associate_intervals_with_variant_intervals -/
+
+/-- a GeneInterval (its non-coding transcripts) or a FeatureIntervalCollection (its features): the leaves' strand and
+    blocks, chromosome coordinates -/
+structure Member where
+  isGene : Bool
+  leaves : List (Strand × List Blk)
+  deriving Repr
+
+/-- `(blocks[0].start, blocks[-1].end)`: `.start` / `.end` of a transcript / feature -/
+def leafSpan (bs : List Blk) : Option Blk :=
+  match bs.head?, bs.getLast? with
+  | some a, some b => some (a.1, b.2)
+  | _, _ => none
+
+/-- `(min(x.start for x in children), max(x.end for x in children))` -/
+def spanOfSpans : List Blk → Option Blk
+  | [] => none
+  | b :: bs =>
+    match spanOfSpans bs with
+    | none => some b
+    | some r => some (min b.1 r.1, max b.2 r.2)
+
+/-- the span location of a gene / feature collection -/
+def memberSpan (m : Member) : Option Blk := spanOfSpans (m.leaves.filterMap fun l => leafSpan l.2)
+
+/-- the span location of a VariantIntervalCollection -/
+def hapSpan (vs : List Var) : Option Blk := spanOfSpans (vs.map fun v => (v.s, v.e))
+
+/-- `gene_or_feature.chunk_relative_location.has_overlap(variant_collection.chunk_relative_location)`: two span
+    intervals (plus strand, strands not compared) -/
+def spansOverlap (a b : Option Blk) : Bool :=
+  match a, b with
+  | some x, some y => overlapKernel x y
+  | _, _ => false
+
+/-- `incorporate_variants` of one leaf (a non-coding transcript is the feature method on its exons) -/
+def incorporateLeaf (ver : Ver) (par : Par) (ref : Seq) (vs : List Var) (isGene : Bool) (leaf : Strand × List Blk) :
+    R Shown := do
+  let loc ← (match leaf.2 with
+             | [b] => pure (Location.single b leaf.1)
+             | bs => mkCompound bs leaf.1)
+  if isGene then do
+    let r ← incorporateTranscript ver par ref (.many vs) loc none
+    pure r.1
+  else incorporateFeature ver par ref (.many vs) loc
+
+/-- `GeneInterval.incorporate_variants` / `FeatureIntervalCollection.incorporate_variants`: every child, in order -/
+def incorporateMember (ver : Ver) (par : Par) (ref : Seq) (vs : List Var) (m : Member) : R (List Shown) :=
+  m.leaves.mapM (incorporateLeaf ver par ref vs m.isGene)
+
+/-- the mapping: haplotype index ↦ incorporated members (member index, leaves), insertion-ordered like a dict -/
+abbrev HapMap := List (Nat × List (Nat × List Shown))
+
+/-- `if key not in d: d[key] = []` ; `d[key].append(x)` -/
+def dictAppend (k : Nat) (x : Nat × List Shown) : HapMap → HapMap
+  | [] => [(k, [x])]
+  | e :: es => if e.1 = k then (k, e.2 ++ [x]) :: es else e :: dictAppend k x es
+
+/-- `itertools.chain(self.genes, self.feature_collections)`, each member with its index in the input -/
+def chainOrder (members : List Member) : List (Nat × Member) :=
+  let ix := (List.range members.length).zip members
+  ix.filter (fun p => p.2.isGene) ++ ix.filter (fun p => !p.2.isGene)
+
+/-- the inner loop `for gene_or_feature in chain(...)` for haplotype `i` -/
+def memberLoop (ver : Ver) (par : Par) (ref : Seq) (i : Nat) (vs : List Var) : List (Nat × Member) → HapMap → R HapMap
+  | [], d => pure d
+  | (j, m) :: rest, d =>
+    if spansOverlap (memberSpan m) (hapSpan vs) then do
+      let x ← incorporateMember ver par ref vs m
+      memberLoop ver par ref i vs rest (dictAppend i (j, x) d)
+    else memberLoop ver par ref i vs rest d
+
+/-- the outer loop `for variant_collection in self.variant_collections` (the `HAS_CGRANGES is False` branch) -/
+def hapLoop (ver : Ver) (par : Par) (ref : Seq) (ms : List (Nat × Member)) : Nat → List (List Var) → HapMap → R HapMap
+  | _, [], d => pure d
+  | i, vs :: rest, d => do
+    let d' ← memberLoop ver par ref i vs ms d
+    hapLoop ver par ref ms (i + 1) rest d'
+
+/-- `alternative_haplotype_mapping` (plain branch); haplotypes are the sorted variant lists of the collections -/
+def hapMapping (ver : Ver) (par : Par) (ref : Seq) (haps : List (List Var)) (members : List Member) : R HapMap :=
+  hapLoop ver par ref (chainOrder members) 0 haps []
+
+/-- the `cgranges` branch: members outermost, for each the haplotypes whose span overlaps (interval-tree query, here in
+    ascending haplotype order).  cgranges is not installed in this environment: this function is NOT exercised by the
+    correspondence; `Props/C13.lean` proves that it fills every bucket exactly like the plain branch. -/
+def hapInner (ver : Ver) (par : Par) (ref : Seq) (j : Nat) (m : Member) : Nat → List (List Var) → HapMap → R HapMap
+  | _, [], d => pure d
+  | i, vs :: rest, d =>
+    if spansOverlap (memberSpan m) (hapSpan vs) then do
+      let x ← incorporateMember ver par ref vs m
+      hapInner ver par ref j m (i + 1) rest (dictAppend i (j, x) d)
+    else hapInner ver par ref j m (i + 1) rest d
+
+def hapMappingTree (ver : Ver) (par : Par) (ref : Seq) (haps : List (List Var)) : List (Nat × Member) → HapMap → R HapMap
+  | [], d => pure d
+  | (j, m) :: rest, d => do
+    let d' ← hapInner ver par ref j m 0 haps d
+    hapMappingTree ver par ref haps rest d'
+
+/-- the bucket of haplotype `i` (a haplotype without members has no key) -/
+def bucket (d : HapMap) (i : Nat) : List (Nat × List Shown) :=
+  match d.lookup i with
+  | some l => l
+  | none => []
+
 /-! ### io/vcf/parser.py: convert_vcf_records_to_model -/
 
 /-- `sample.data.PS`: attribute absent / present with value None / an int -/
